@@ -149,6 +149,9 @@ U8 = U6 + [V(1, 0, 0, (0,)), V(2, 0, 0, ('rc', 1))]
 # every power of two a component can be (and its two neighbours): thresholds of packed / shifted / masked fast paths sit there, whether or not the
 # source spells them as a literal (`1 << (u64::BITS / 3)`)
 POWERS = [1 << k for k in range(2, 50) if (1 << k) + 1 <= MAX]
+# sizes of collections (list lengths, numbers of comparators / alternatives / identifiers) around the powers of two: thresholds of
+# "small input" fast paths and of bounded repetitions sit there
+SIZES = [15, 16, 17, 31, 32, 33, 63, 64, 65, 127, 128, 129, 255, 256, 257]
 def power_values():
     return sorted({m + d for m in POWERS for d in (-1, 0, 1)})
 def magic_universes():
